@@ -4,7 +4,8 @@ from .. import tlc
 from ..pool import run_cases
 from .. import linmodel
 
-VARIANTS = [dict(scale=1.0, precision='float64'), dict(scale=0.5, precision='float64'), dict(scale=0.25, precision='float64')]
+VARIANTS = [dict(scale=1.0, precision='float64'), dict(scale=0.5, precision='float64'), dict(scale=0.25, precision='float64'),
+            dict(scale=16.0, precision='float64')]       # dt = 16: rates of 1/16 and 1/8 per time unit (coarse keys must not merge chains)
 
 
 def to_lin(m):
@@ -36,7 +37,7 @@ def run(ctx):
                 'incl. pairs rounding to the same and to different orders, (d/s)^2 < 1.5, rounding up across .5, and undelayed edges '
                 'sharing a source with delayed ones, dde_approx without spread), the Euler iterates of the explicitly written '
                 'augmented ODE (own chain per edge); EachEdgeOwnKernel and MeanDelayIsD are TLC invariants; every case is run '
-                '(vectorize on/off, three time scales) and the rows of the user variables compared exactly; Connectivity form for '
+                '(vectorize on/off, four time scales incl. dt = 16) and the rows of the user variables compared exactly; Connectivity form for '
                 'single-kernel cases; adaptive solver compared with the same system integrated by the harness')
     ctx.assumptions += ['kernels chosen so that order/delay is an integer: Euler iterates are integers and compared with ==',
                         'adaptive clause: tolerance 1e-6 against a dense reference integration of the explicit linear chain']
@@ -63,7 +64,13 @@ def run(ctx):
     three = [c for c in delayed if len(c['m']['edges']) == 3]
     sel = [c for c in delayed if len(c['m']['edges']) < 3][:800 if tier == 'quick' else 20000] + three[:250 if tier == 'quick' else 20000]
     ctx.notes['cases_enumerated'] = len(cases)
-    jobs = [dict(case=c, variant=VARIANTS[k % 3]) for k, c in enumerate(sel)]
+    jobs = [dict(case=c, variant=VARIANTS[k % 4]) for k, c in enumerate(sel)]
+    # two kernels of equal order and different rate leaving one source: additionally at the coarse time scale
+    for k, c in enumerate(sel):
+        oq = [(c['m']['kind'][e['s'] - 1] if c['cfg']['vec'] else e['s'], o, r)        # source variable after vectorisation
+              for e, o, r in zip(c['m']['edges'], c['orders'], c['rates']) if e['d']]
+        if k % 4 != 3 and any(a[0] == b[0] and a[1] == b[1] and a[2] != b[2] for a in oq for b in oq):
+            jobs.append(dict(case=c, variant=VARIANTS[3]))
     # Connectivity form: all edges between one pair of populations share one kernel
     for c in sel[:300]:
         kern = {(e['d'], tuple(e['s2'])) for e in c['m']['edges']}
